@@ -34,6 +34,10 @@ def run():
         "A-HASH for 'the id differs from the 3D id'",
     ]
     sections_parallel(rep, [("thickness", _thickness), ("vacuum", _vacuum), ("conventional", _conventional), ("id", _id)])
+    # spglib is asked about the analysed structure with the analyzer's tolerance; the simple getters are dataset look-ups (shared section)
+    from props import _sym as _symmod
+    from props._util import section as _section
+    _section(rep, "dataset", lambda: _symmod.dataset_section(rep))
     return rep
 
 
